@@ -155,11 +155,15 @@ PROPS = {
                       "decrypt then mask), over the model of FS.OpenFile / tryGetRedumpKey / ReadKeyFile / Test3k3yImage / ISO3k3y.",
     },
     "C12": {
-        "jobs": [{"cmd": "conc", "quick": 10, "thorough": 300, "race": True, "timeout": 6000, "project": sess_project()}],
+        "jobs": [{"cmd": "conc", "quick": 10, "thorough": 300, "race": True, "timeout": 6000, "project": sess_project()},
+                 {"cmd": "slow", "quick": 12, "thorough": 400, "race": True, "timeout": 6000}],
         "rule": "2..8 (thorough: 2..64) concurrent clients against one real server built with -race, GOMAXPROCS 1..16: each client issues 10..50 requests "
                 "over the shared read-only subtree (opens, reads of up to 70 KB through the pooled buffers, listings, dir-size) and over its own private "
                 "writable subtree (uploads, mkdir/rmdir, delete); each client's response stream is compared with the model's prediction for that client "
-                "alone; any race-detector report is a violation; every client's session is one case (all non-trivial)",
+                "alone; any race-detector report is a violation; every client's session is one case (all non-trivial); job slow: 2..6 clients over "
+                "synchronous pipes, each reading its own 400 KB file of a distinct pattern with READ_FILE_CRITICAL (1..100000 bytes); in every round some "
+                "clients leave their response undrained (the server blocks in Write with the data in its transfer buffer) while the others are served, "
+                "then drain: every response must be that client's own bytes",
         "assumptions": ["request handling is the atomic step of a schedule in the model; the Go memory model is not modelled"],
         "partial": ["the theorem covers schedules in which nothing writes; isolation of clients that write to private subtrees and freedom from data races are "
                     "decided by the -race differential only"],
@@ -176,13 +180,15 @@ PROPS = {
                       "world, every handle opened for the connection is closed when it ends), over the session model with explicit open/close counters.",
     },
     "C15": {
-        "jobs": [{"cmd": "admit", "quick": 120, "thorough": 4000, "timeout": 3000}],
+        "jobs": [{"cmd": "admit", "quick": 120, "thorough": 4000, "timeout": 3000},
+                 {"cmd": "admitbin", "quick": 24, "thorough": 600, "binary": True, "timeout": 6000}],
         "rule": "the real netutil.LimitListener + iprange.FilterListener stack (wired in the order read from cmd/ps3netsrv-go/server.go) over an in-memory "
                 "listener whose connections carry scripted peer addresses in 127.0.0.0/8 and ::1; limits 0..4 (0..8 thorough), 9 whitelist specs, random "
                 "arrival/close orders of up to 4N+2 clients; after every event the state of every connection (served / rejected / waiting) is compared "
-                "with the model; non-trivial = at least 4 events",
+                "with the model; non-trivial = at least 4 events; job admitbin: the same histories against the real binary (go build ./cmd/ps3netsrv-go) "
+                "started with --max-clients / --client-whitelist (every third case both), clients over TCP from source addresses 127.0.0.1..15 and 127.0.1.x",
         "assumptions": ["the semaphore of netutil.LimitListener is modelled as a counter", "whitelist verdicts of arrivals come from the C14 oracle"],
-        "partial": ["kernel backlog and scheduler fairness cannot be exhibited by the model; the real binary with --max-clients/--client-whitelist is exercised by C19's job"],
+        "partial": ["kernel backlog and scheduler fairness cannot be exhibited by the model (observed with settle windows in job admitbin)"],
         "level_text": "Theorems C15_bound (served <= N for every history), C15_filter (only whitelisted arrivals are served; rejected ones were never handed to the "
                       "server), C15_conserve (slots = served + waiting loop), C15_progress (waiting arrivals imply the limit is reached), C15_wiring, over a "
                       "transition system of the listener stack.",
@@ -208,11 +214,11 @@ PROPS = {
 }
 
 PROPS["C19"] = {
-    "jobs": [{"cmd": "config", "quick": 45, "thorough": 900, "binary": True, "timeout": 6000}],
+    "jobs": [{"cmd": "config", "quick": 63, "thorough": 900, "binary": True, "timeout": 6000}],
     "rule": "the real binary (go build ./cmd/ps3netsrv-go from the working tree) started once per case: one of 9 observable settings (root in three "
             "spellings, listen-addr, allow-write, max-clients, client-whitelist, read-timeout, debug, json-log, debug-server-listen-addr) gets its value "
             "through one of 6 channels (flag, environment, --config file, PS3NETSRV_CONFIG_FILE file, ./config.ini, user configuration directory), through two "
-            "channels with conflicting values, or gets a malformed value; the effective value is read off the server's behaviour (marker files, mkdir "
+            "channels with conflicting values, or gets a malformed value (the first 18 cases: an empty value for max-clients, client-whitelist and read-timeout through each of the six channels); the effective value is read off the server's behaviour (marker files, mkdir "
             "result, served clients out of three, admitted source addresses, idle cut, log format, pprof port) or the exit status; all cases non-trivial",
     "assumptions": ["kong and ini.v1 are dependencies: modelled by the resolution order of Model/Config, not verified",
                     "flag and environment names and defaults come from the struct tags of serverApp (regenerated on every run)"],
